@@ -303,6 +303,21 @@ def run_e2e(case, stats, viol):
                 stats.get('package_boundary_patterns', 0) + 1
         if rng.random() < 0.5:
             opts['layer'] = [pick(lnames) for _ in range(rng.randint(1, 2))]
+        # the filters work together with the level selection (a level <= 0
+        # means "every level"): some classes sit on level 2 or 3 and a third
+        # of the runs say something about levels
+        for m in spec['modules']:
+            for ch in m['suite']['ch']:
+                if ch['t'] == 'class' and rng.random() < 0.3:
+                    ch['level'] = rng.choice([2, 3])
+        if rng.random() < 0.4:
+            k, v = rng.choice([('at_level', 0), ('at_level', -1),
+                               ('at_level', 0), ('at_level', 2),
+                               ('all', True), ('only_level', 1),
+                               ('only_level', 2)])
+            opts[k] = v
+            stats['level_option_runs'] = \
+                stats.get('level_option_runs', 0) + 1
         # the legacy positional filters: [module_filter [test_filter]]
         positional = []
         def pick_nonempty(pool):
